@@ -90,3 +90,6 @@ func (a *VerifAcl) ValidateRawRecord(rawRec *consensusproto.RawRecord, afterVali
 func (a *VerifAcl) AddRawRecord(rawRec *consensusproto.RawRecordWithId) error     { return nil }
 func (a *VerifAcl) AddRawRecords(rawRecords []*consensusproto.RawRecordWithId) error { return nil }
 func (a *VerifAcl) Close(ctx context.Context) error { return nil }
+
+// SetIdentity: the account whose view this list is
+func (a *VerifAcl) SetIdentity(k crypto.PubKey) { a.State.pubKey = k }
